@@ -204,8 +204,14 @@ func (c14) Run(plan interface{}, schedSeed uint64, replay []simrt.Choice, lenien
 	if v.Machinery != "" {
 		return v, out
 	}
-	if base.ConnErr != "" || base.SendErr != "" || len(base.Out.Crashes) > 0 || len(errsOnly(base.Recs)) > 0 {
-		v.Machinery = fmt.Sprintf("baseline run failed: %s %s %v %v", base.ConnErr, base.SendErr, base.Out.Crashes, errsOnly(base.Recs))
+	if base.ConnErr != "" || base.SendErr != "" || len(base.Out.Crashes) > 0 {
+		v.Machinery = fmt.Sprintf("baseline run failed: %s %s %v", base.ConnErr, base.SendErr, base.Out.Crashes)
+		return v, out
+	}
+	if len(errsOnly(base.Recs)) > 0 {
+		// the library rejects this response even when nothing fails: nothing to compare with (C02 reports such
+		// responses the same way); the vacuity guard keeps this from becoming a silent blind spot
+		v.Probe("baseline-rejected-response")
 		return v, out
 	}
 	where0 := fmt.Sprintf("%s after %d of %d wire bytes of %v", p.Kind, p.K, len(wire), p.Entries)
@@ -462,8 +468,14 @@ func c14RunTransient(p *c14Plan, v *Verdict, cfg simrt.Config, base *respResult,
 	if v.Machinery != "" {
 		return v, out
 	}
-	if base.ConnErr != "" || base.SendErr != "" || len(base.Out.Crashes) > 0 || len(errsOnly(base.Recs)) > 0 {
-		v.Machinery = fmt.Sprintf("baseline run failed: %s %s %v %v", base.ConnErr, base.SendErr, base.Out.Crashes, errsOnly(base.Recs))
+	if base.ConnErr != "" || base.SendErr != "" || len(base.Out.Crashes) > 0 {
+		v.Machinery = fmt.Sprintf("baseline run failed: %s %s %v", base.ConnErr, base.SendErr, base.Out.Crashes)
+		return v, out
+	}
+	if len(errsOnly(base.Recs)) > 0 {
+		// the library rejects this response even when nothing fails: nothing to compare with (C02 reports such
+		// responses the same way); the vacuity guard keeps this from becoming a silent blind spot
+		v.Probe("baseline-rejected-response")
 		return v, out
 	}
 	where := fmt.Sprintf("one read fails with a timeout error after %d of %d wire bytes (packets %v) of %v, then the stream goes on", p.K, len(wire), pktLens(pk), p.Entries)
